@@ -17,6 +17,30 @@ def nonnull_at(f, n):
     if cs is None:
         return None
     out = set()
+    # a test held in a bool local that is defined once (`const bool hasRoot = node != nullptr; if (hasRoot) ...`) counts where the tested pointer
+    # is not assigned between the definition of the bool and this use
+    from engines import single_def, _decompose
+    extra = []
+    for c, t in cs:
+        c0 = c
+        while c0 is not None and c0.get('k') in ('Paren', 'Cast') and len(c0.get('c', [])) == 1:
+            c0 = c0['c'][0]
+        if c0 is not None and c0.get('k') == 'Ref' and c0.get('dk') == 'local' and (c0.get('t') or '').replace('const ', '') == 'bool':
+            i_ = single_def(f, c0.get('d'))
+            if i_ is not None:
+                tmp = []
+                _decompose(i_, t, tmp)
+                for c2, t2 in tmp:
+                    nt2 = null_test(c2)
+                    if nt2 is None or nt2[1] != t2:
+                        continue
+                    nm = path(nt2[0])
+                    lo, hi = i_.get('l', 0), n.get('l', 0)
+                    changed = any(((x.get('k') == 'Bin' and x.get('op') == '=') or (x.get('k') == 'Call' and x.get('opc') == '=')) and x.get('c') and x['c'][0].get('k') == 'Ref' and x['c'][0].get('n') == nm
+                                  and lo <= x.get('l', 0) <= hi and x.get('i') != i_.get('i') for x in f.walk())
+                    if not changed:
+                        extra.append(nm)
+    out.update(extra)
     for c, t in cs:
         nt = null_test(c)
         if nt is not None and nt[1] == t:
